@@ -160,6 +160,12 @@ theorem unpack_pack (bs : List Bool) : unpackFlags bs.length (packFlags bs) = bs
 
 /-! ## the codec algebra -/
 
+theorem intOk_of_len (n : Nat) (h : (n : Int) ≤ MAX_FOUR_BYTES_INT) : IntOk (n : Int) := by
+  left
+  simp only [inShort, Bool.and_eq_true, decide_eq_true_eq]
+  refine ⟨?_, h⟩
+  simp only [MIN_FOUR_BYTES_INT]; omega
+
 theorem items_rt (d : Bytes → Option (Val × Bytes)) (e : Val → Bytes) (p : Val → Bool)
     (h : ∀ x rest, p x = true → d (e x ++ rest) = some (x, rest)) :
     ∀ v rest, wtItems p v = true → decItems d v.len (encItems e v ++ rest) = some (v, rest) := by
@@ -252,7 +258,7 @@ theorem body_rt (se : String → Val → Bytes) (sd : String → Bytes → Optio
   | list c ih =>
     intro v rest hw
     simp only [wtBody, Bool.and_eq_true, decide_eq_true_eq] at hw
-    simp only [encBody, decBody, List.append_assoc, decInt_encInt _ _ hw.1]
+    simp only [encBody, decBody, List.append_assoc, decInt_encInt _ _ (intOk_of_len _ hw.1)]
     have : ¬ ((v.len : Nat) : Int) < 0 := by omega
     simp only [this, if_false, Int.toNat_natCast]
     exact items_rt _ _ _ (fun x r hx => ih x r hx) v rest hw.2
@@ -366,7 +372,7 @@ theorem body_sub_rt (se : String → Val → Bytes) (sd : String → Bytes → O
     intro w v rest hs hw
     cases w <;> simp only [sub] at hs <;> try contradiction
     simp only [wtBody, Bool.and_eq_true, decide_eq_true_eq] at hw
-    simp only [encBody, decBody, List.append_assoc, decInt_encInt _ _ hw.1]
+    simp only [encBody, decBody, List.append_assoc, decInt_encInt _ _ (intOk_of_len _ hw.1)]
     have : ¬ ((v.len : Nat) : Int) < 0 := by omega
     simp only [this, if_false, Int.toNat_natCast]
     exact items_rt _ _ _ (fun x r hx => ih _ x r hs hx) v rest hw.2
